@@ -52,6 +52,8 @@ def instances(tier, seed):
     out = [{'id': 'base', 'what': 'base'}, {'id': 'base_pit', 'what': 'base_pit'}]
     for k in (1, 2, 3):
         out.append({'id': f'duccio_value:{k}', 'what': 'value', 'k': k})
+    # targets given as integer tensors (e.g. torch.tensor(787) parameters / operations), costs fractional
+    out.append({'id': 'duccio_value:2:int_targets', 'what': 'value', 'k': 2, 'int_targets': True})
     out.append({'id': 'duccio_schedule', 'what': 'schedule'})
     out.append({'id': 'duccio_derived', 'what': 'derived'})
     return out
@@ -65,7 +67,10 @@ def concrete_duccio(rec):
     """plain-torch re-execution. rec: costs (list of lists per call), targets, strengths|task_loss, epochs (per call), n"""
     from plinio.regularizers import DUCCIO
     names = list(NAMES[:len(rec['targets'])])
-    targets = {n: torch.tensor(float(Fraction(t))) for n, t in zip(names, rec['targets'])}
+    if rec.get('int_targets'):
+        targets = {n: torch.tensor(int(Fraction(t))) for n, t in zip(names, rec['targets'])}
+    else:
+        targets = {n: torch.tensor(float(Fraction(t))) for n, t in zip(names, rec['targets'])}
     if rec.get('strengths') is not None:
         d = DUCCIO(targets, final_strengths=tuple(torch.tensor(float(Fraction(s))) for s in rec['strengths']))
     else:
@@ -199,11 +204,15 @@ def _run_base_pit(res, p, tier, selftest):
     res.absorb(ex)
 
 
-def _mk_duccio(ex, k, derived=False):
+def _mk_duccio(ex, k, derived=False, int_targets=False):
     from plinio.regularizers import DUCCIO
     names = list(NAMES[:k])
-    t = [z3.Real(f't{i}') for i in range(k)]
-    targets = {n: _t(ti) for n, ti in zip(names, t)}
+    if int_targets:
+        t = [z3.Int(f't{i}') for i in range(k)]
+        targets = {n: SymTensor.from_array(np.array(ti, dtype=object), torch.int64) for n, ti in zip(names, t)}
+    else:
+        t = [z3.Real(f't{i}') for i in range(k)]
+        targets = {n: _t(ti) for n, ti in zip(names, t)}
     if derived:
         tl = z3.Real('task_loss')
         ex.assume(tl > 0)
@@ -223,7 +232,7 @@ def _run_value(res, p, tier, selftest):
     for (e, n) in positions:
         def fn(ex):
             with SymMode():
-                d, names, t, s = _mk_duccio(ex, k)
+                d, names, t, s = _mk_duccio(ex, k, int_targets=bool(p.get('int_targets')))
                 c = [z3.Real(f'c{i}') for i in range(k)]
                 try:
                     v1 = _val(d(Stub({nm: _t(ci) for nm, ci in zip(names, c)}), e, n))
@@ -269,14 +278,14 @@ def _run_value(res, p, tier, selftest):
                     cv = [st.model_value(m, ci) for ci in c]
                     costs = [cv] if ncalls == 1 else [cv, [st.model_value(m, c0b)] + cv[1:]]
                     rec = {'observable': name, 'targets': [st.model_value(m, x) for x in t], 'strengths': [st.model_value(m, x) for x in s],
-                           'costs': costs, 'epochs': [e] * ncalls, 'n': n, 'key': f'duccio|{name}|k={k}'}
+                           'costs': costs, 'epochs': [e] * ncalls, 'n': n, 'key': f'duccio|{name}|k={k}' + ('|int_targets' if p.get('int_targets') else ''), 'int_targets': bool(p.get('int_targets'))}
                     _viol(res, rec, f'DUCCIO {name} violated with {k} metrics at epoch {e}/{n}', selftest)
             r, m = ex.must(st.e_gt(v1, 0))
             res.witnesses += 1
             res.witnesses_ok += 1 if r == 'sat' else 0
             if r == 'sat' and (e, n) == (3, 7):
                 rec = {'targets': [st.model_value(m, x) for x in t], 'strengths': [st.model_value(m, x) for x in s],
-                       'costs': [[st.model_value(m, ci) for ci in c]], 'epochs': [e], 'n': n}
+                       'costs': [[st.model_value(m, ci) for ci in c]], 'epochs': [e], 'n': n, 'int_targets': bool(p.get('int_targets'))}
                 res.sample(dict(rec, value=st.model_value(m, v1)))
                 got = concrete_duccio(jsonable(rec))[0]
                 want = float(st.model_value(m, v1))
